@@ -11,7 +11,8 @@ From RV Require Import Base.
 From RV.Model Require Import Utf8 Indexer CodePointSet Insn IR Optimizer Unfold Emit Fold.
 From RV.Spec Require Import IRSem.
 From RV.Gen Require Import FoldTables.
-From RV.Proofs Require Import IRRange IRMono IndexerFacts AsciiUtf8 MatchRange.
+From RV.Spec Require Import IRShape.
+From RV.Proofs Require Import IRRange IRMono IndexerFacts AsciiUtf8 MatchRange Utf8Facts Utf8Valid OptMono OptRel OptBrackets OptTop OptTextUtf8.
 
 Theorem c06_positions_in_bounds : forall ix unicode utf16 h,
   (forall (h' : hay) fwd p c p', (p <= length h')%nat -> cnext ix fwd h' p = Ok (Some (c, p')) -> (p' <= length h')%nat) ->
@@ -45,6 +46,33 @@ Proof.
   - intros h' fwd p c p'. apply ascii_cursor.
   - intros h' fwd p c p'. apply ascii_dir.
   - intros q q'. apply ascii_right_gt.
+Qed.
+
+(* on well-formed UTF-8 text (a sequence of well-formed characters, decided by utf8_chars), from a start at a character
+   boundary: the walk hypothesis is a theorem, so the range statement has no hypothesis on the text ... *)
+Theorem c06_match_range_valid_utf8 : forall unicode utf16 h cs fuel n ngroups tries p p0 e gs,
+  utf8_chars (length h) h = Some cs -> Utf8Valid.bnd cs p ->
+  ir_search (utf8_indexer fold_code_point) unicode utf16 h fuel n ngroups tries p = Some (Some (p0, e, gs)) ->
+  (p <= p0)%nat /\ (p0 <= e)%nat /\ (e <= length h)%nat.
+Proof.
+  intros unicode utf16 h cs fuel n ngroups tries p p0 e gs Hch Hp E.
+  destruct (utf8_chars_ok _ _ _ Hch) as [Hw Hcat]. subst h.
+  exact (c06_match_range_utf8 unicode utf16 (concat cs) fuel n ngroups tries p p0 e gs
+           (walk_ok_utf8 fold_code_point cs Hw tries p Hp) E).
+Qed.
+
+(* ... and, for a pattern without backreferences and string sets, the reported match starts and ends at character
+   boundaries (what slicing the haystack with the reported range needs) *)
+Theorem c06_match_on_char_boundaries_utf8 : forall unicode utf16 h cs fuel n ngroups tries p p0 e gs,
+  utf8_chars (length h) h = Some cs -> simple n = true -> Utf8Valid.bnd cs p ->
+  ir_search (utf8_indexer fold_code_point) unicode utf16 h fuel n ngroups tries p = Some (Some (p0, e, gs)) ->
+  Utf8Valid.bnd cs p0 /\ Utf8Valid.bnd cs e.
+Proof.
+  intros unicode utf16 h cs fuel n ngroups tries p p0 e gs Hch Hs Hp E.
+  destruct (utf8_chars_ok _ _ _ Hch) as [Hw Hcat]. subst h.
+  pose proof (text_ok_utf8 fold_code_point cs Hw unicode) as Ht. destruct Ht as (Hk1 & Hk5 & Hcp & Hb1 & Hb2 & Hst).
+  eapply (search_boundaries (utf8_indexer fold_code_point) unicode utf16 (concat cs) (Utf8Valid.bnd cs) n Hk5); [|exact Hp|exact E].
+  exact (al_simple (utf8_indexer fold_code_point) unicode utf16 (concat cs) (Utf8Valid.bnd cs) Hk1 Hb1 n Hs).
 Qed.
 
 (* Non-vacuity: a lookbehind over a two-byte character: (?<=é)a on "éa" matches 2..3. *)
